@@ -85,7 +85,8 @@ class Spec:
                 self.files[d] = 200 + d
         elif n == "import":
             # an export holding one dataset of the source repository: as transfer_from, except that importing a dataset
-            # that is already STORED here is refused (observed: IntegrityError) -- by the statement a refusal changes nothing
+            # that is already STORED here is refused (ConflictingDefinitionError since /repo 2da36a1, before any file is touched)
+            # -- by the statement a refusal changes nothing
             d = a[0]
             if d in self.ds and (d not in self.xf or d in self.files):
                 raise SFail()
@@ -497,7 +498,7 @@ def check_case(ctx: Ctx, case, res, origin):
         for esc in r.get("escapes", []):
             diff = {k: [esc["before"].get(k), esc["after"].get(k)] for k in sorted(set(esc["before"]) | set(esc["after"]))
                     if esc["before"].get(k) != esc["after"].get(k)}
-            fail("inner-failure-kept-effects" if esc["construct"] != "import" else "import-failure-kept-effects", r,
+            fail("inner-failure-kept-effects", r,
                  f"a {esc['construct']} inside the program raised {esc['exc']} (caught by the program's own try) but the registry rows / "
                  f"files are not what they were when it was entered: {diff}", {"construct": esc["construct"], "changed": diff})
         # ---- the statement: the result must be one the abstract program allows for a single failure somewhere
@@ -522,10 +523,8 @@ def check_case(ctx: Ctx, case, res, origin):
                 lost = sorted(d for d in s.files if d not in files_now)
                 wrongv = sorted(d for d in s.files if d in files_now and files_now[d] != s.files[d])
                 targets = {p_[2] for p_ in _all_ops(prog) if p_[1] in ("purge", "unstore")}
-                imp_targets = {p_[2] for p_ in _all_ops(prog) if p_[1] == "import"}
                 vt = ("artifact-orphaned" if orphan else
-                      ("artifact-lost-removal-target" if set(lost) <= targets else
-                       "artifact-lost-import-target" if set(lost) <= imp_targets else "artifact-lost") if lost else
+                      ("artifact-lost-removal-target" if set(lost) <= targets else "artifact-lost") if lost else
                       "artifact-content" if wrongv else "outcome")
                 fail(vt, r, f"{r['out']} after a fault at {r.get('fired')}: registry as allowed but artifacts differ "
                             f"(left behind: {orphan}, missing: {lost}, wrong content: {wrongv})",
@@ -555,8 +554,7 @@ def check_case(ctx: Ctx, case, res, origin):
                  f"after the follow-up emptyTrash the artifacts of slots {sorted(fslots - locs)} are under the root but no "
                  f"dataset_location row refers to them (nothing will ever collect them)", {"files": fo["fs"], "dataset_location": fo["raw_loc"]})
         if locs - fslots:
-            imp_t = {p_[2] for p_ in _all_ops(prog) if p_[1] == "import"}
-            fail("location-without-artifact-after-emptyTrash" if not (locs - fslots) <= imp_t else "location-without-artifact-import-target-after-emptyTrash", r,
+            fail("location-without-artifact-after-emptyTrash", r,
                  f"after the follow-up emptyTrash dataset_location says slots {sorted(locs - fslots)} are stored but their artifacts "
                  f"are gone", {"files": fo["fs"], "dataset_location": fo["raw_loc"]})
     return nfail
